@@ -59,7 +59,7 @@ def setup(spec, ctx):
 def cases(spec, ctx):
     w = spec["work"]
     if w == "ds-single":
-        for b in range(6):
+        for b in range(12):
             yield {"work": "ds", "base": b, "faults": []}
             for side in ("left", "right"):
                 for f in DS_FAULTS:
@@ -98,6 +98,15 @@ def base_pair(rng, base):
     lm = gen.mask(rng, H, W, "sparse") if base % 6 in (1, 3) else None
     left = gen.make_dataset(l, ld, lm)
     right = gen.make_dataset(r, rd, None)
+    if nb > 1 and base >= 6:
+        # the same band names held in an object-dtype array (API users, pandas indexes, datasets read back from
+        # netCDF): still strings, still well-formed
+        side = left if base % 2 else right
+        names = np.array([str(b) for b in side.coords["band_im"].data], dtype=object)
+        if base % 2:
+            left = left.assign_coords(band_im=names)
+        else:
+            right = right.assign_coords(band_im=names)
     if base % 6 in (3, 5):
         left.coords["band_classif"] = ["a", "b"]
         left["classif"] = xr.DataArray(rng.integers(0, 2, (2, H, W)).astype(np.int16), dims=["band_classif", "row", "col"])
